@@ -29,7 +29,7 @@ def spec_info(spec_case):
 
 
 def static_check(ctx, mode, total, extra="", select=None, oracle_relevant=None, rule="", max_n=None,
-                 finish=True, tag=None, extra_props=(), count_bound=False, judge=None, extra_stats=None, more_runs=(), spec_opts=""):
+                 finish=True, tag=None, extra_props=(), count_bound=False, judge=None, extra_stats=None, more_runs=(), spec_opts="", search_judge=None):
     """select(case) -> bool: which generated cases belong to this property.
     oracle_relevant(verdict string) -> bool: which oracle verdicts are violations of THIS property."""
     proofs_ok = check_proofs(ctx, extra_props=extra_props)
@@ -152,6 +152,8 @@ def static_check(ctx, mode, total, extra="", select=None, oracle_relevant=None, 
                         v = "bad duplicate-member"
                     if judge is not None:
                         v = judge(c, sp, v)
+                    if search_judge is not None and not (v.startswith("bad") or v == "panic"):
+                        v = search_judge(c, sp, v)
                     if (v.startswith("bad") or v == "panic") and (oracle_relevant is None or oracle_relevant(v, c)) and not match_known(known, c, v):
                         ctx.violation("%s: %s (%s) [found by the search started after the correspondence broke: %s]" % (c.kind, v, spec_info(sp) if sp else "", corr[1]),
                                       c.text() + ("".join("SPEC " + x + "\n" for x in sp.outs) if sp else ""), found_input=True, key=c.kind + v)
